@@ -297,7 +297,7 @@ def g_modulated(rng, extra=True):
         cn = ["m0", "m1"]
         f = ["m1", "!m0"]
     else:
-        c = rng.choice(cs[kind])
+        c = rng.choice([x for x in cs[kind] if x["n"] == 3])      # at most 6 variables in total
         n = c["n"]
         cn = [f"m{i}" for i in range(n)]
         f = [tt_to_expr(n, c["tt"][i], cn) for i in range(n)]
@@ -314,7 +314,8 @@ def g_modulated(rng, extra=True):
             g = rand_expr(rng, cn, 2)
         a, b = (f[k], g) if rng.random() < 0.5 else (g, f[k])
         lines.append(f"{cn[k]}, (i0 & ({a})) | (!i0 & ({b}))")
-    if extra and rng.random() < 0.7:
+    has_extra = extra and rng.random() < 0.7
+    if has_extra:
         r = rng.random()
         if r < 0.4:
             lines += ["p, q", "q, p"]
@@ -322,7 +323,7 @@ def g_modulated(rng, extra=True):
             lines += ["p, !q | (i0 & p)", "q, p"]
         else:
             lines += [f"p, p | {rng.choice(cn)}"]
-    if rng.random() < 0.3:
+    if not has_extra and rng.random() < 0.4:
         lines.append("i1, i1")
         lines.append(f"z, (i1 & {rng.choice(cn)}) | (!i1 & z)")
     return "\n".join(lines)
